@@ -86,12 +86,14 @@ Hist3 == IF Quick THEN {}
 
 \* (4) copy for all length pairs and element types
 \* the count that copy reports is used (defined, printed, compared) or discarded (copy as a statement, the form the README shows)
-CopyForms == {"used", "stmt", "printed", "infunc"}
+CopyForms == {"used", "stmt", "printed", "infunc", "globaldst", "globalsrc"}
 CopyCases == {CaseOf("C03/copy/" \o f \o "/" \o ty \o "/" \o ToString(ld) \o "-" \o ToString(ls),
                      <<Def1("d", SliceLit(ty, [k \in 1..ld |-> NewOf(ty)])), Def1("s", SliceLit(ty, [k \in 1..ls |-> ElemOf(ty, k)]))>>
                      \o (CASE f = "used" -> <<Def1("n", CopyE("d", Var("s"))), PrintS(<<Var("n"), LenE(Var("d")), LenE(Var("s"))>>)>>
                            [] f = "stmt" -> <<ExprS(CopyE("d", Var("s"))), PrintS(<<LenE(Var("d")), LenE(Var("s"))>>)>>
                            [] f = "printed" -> <<PrintS(<<CopyE("d", Var("s")), LenE(Var("d"))>>)>>
+                           [] f = "globaldst" -> <<Func("cp", <<Param("b", "[]" \o ty)>>, <<"int">>, <<RetS(<<CopyE("d", Var("b"))>>)>>), PrintS(<<CallE("cp", <<Var("s")>>), LenE(Var("d"))>>)>>
+                           [] f = "globalsrc" -> <<Func("cp", <<Param("a", "[]" \o ty)>>, <<>>, <<Def1("n", CopyE("a", Var("s"))), PrintS(<<Var("n")>>)>>), ExprS(CallE("cp", <<Var("d")>>)), PrintS(<<LenE(Var("d"))>>)>>
                            [] f = "infunc" -> <<Func("cp", <<Param("a", "[]" \o ty), Param("b", "[]" \o ty)>>, <<>>, <<ExprS(CopyE("a", Var("b")))>>), ExprS(CallE("cp", <<Var("d"), Var("s")>>)), PrintS(<<LenE(Var("d"))>>)>>)
                      \o <<RangeS("k", "v", Var("d"), <<PrintS(<<Var("k"), Var("v")>>)>>),
                        SetIdx("s", N(0), NewOf(ty)),          \* a copy is not an alias
